@@ -840,6 +840,8 @@ class Interp:
                 return self.binop(op, unwrap(a), unwrap(b))
             r = self.binop(op, unwrap(a), unwrap(b))
             return NpScalar(r) if (is_number(r) or is_z3(r)) else r
+        if op is ast.Mod and isinstance(a, (str, FmtStr)):
+            return self.str_binop(op, a, b)          # str.__mod__ comes first and formats any object
         # dunder dispatch for objects
         if isinstance(a, Obj) or isinstance(b, Obj):
             name = _DUNDER.get(op)
@@ -1167,6 +1169,9 @@ class Interp:
                 return z3.Contains(z3.StringVal(container), item)
             if item is None:
                 raise self.exc('TypeError', "'in <string>' requires string as left operand, not NoneType")
+            h = self.world._abs(item, 'in_str') if isinstance(item, Obj) else None
+            if h is not None:
+                return h(self, item, container)        # an abstract string (e.g. a token) tested against a literal
             raise self.exc('TypeError', "'in <string>' requires string as left operand")
         if is_z3(container) and z3.is_string(container):
             return z3.Contains(container, z3_of(item))
